@@ -5,7 +5,7 @@ from typing import Any
 
 import tinydb
 
-from .ldm_constants import OPERATOR_MAPPING
+from .ldm_constants import DATA_OBJECT_FIELD_NAME, OPERATOR_MAPPING
 from .database import DataBase
 from .ldm_classes import Filter, FilterStatement, RequestDataObjectsReq
 
@@ -76,6 +76,8 @@ class TinyDB(DataBase):
             attribute to be searched for
         """
         nested_fields = attribute.split(".")
+        # Attribute paths are relative to the data object, as in the Dictionary database
+        query = getattr(query, DATA_OBJECT_FIELD_NAME)
         # Dynamically build the query
         for field in nested_fields:
             query = getattr(query, field)
